@@ -14,7 +14,7 @@ import (
 func init() {
 	register(&Prop{
 		ID:         "C03",
-		Decided:    "(1) every implementation of functions.AggregatorFunction (and the legacy wrappers): New() returns a new object that shares no reference-typed accumulator state with the prototype, and Add writes only its receiver's fields (no package state); (2) NULL skipping at the single choke point: in GroupAggregator.Add every groupAgg.Add(v) is unreachable when v is NULL unless the aggregate is first_value/last_value (the exemption table is exactly the property's), count(*) adds the constant 1; (3) GroupAggregator.Reset re-initialises every field Add writes, and in processWindowBatch Reset follows the Add loop on every path on which GetResults' error is nil, every in-module GetResults returning a constant nil error; (4) each of the aggregate names the property lists is registered with a type implementing AggregatorFunction. Also: no closure that outlives its iteration captures a variable a later iteration overwrites (module-wide, go.mod is below go 1.22); the NULL exemption of first_value/last_value is decided on the case-folded function name. Also: every group owns an instance of every aggregate before any accumulator is fed (an all-NULL group reports count 0 / NULL, not a missing column).",
+		Decided:    "(1) every implementation of functions.AggregatorFunction (and the legacy wrappers): New() returns a new object that shares no reference-typed accumulator state with the prototype, and Add writes only its receiver's fields (no package state); (2) NULL skipping at the single choke point: in GroupAggregator.Add every groupAgg.Add(v) is unreachable when v is NULL unless the aggregate is first_value/last_value (the exemption table is exactly the property's), count(*) adds the constant 1; (3) GroupAggregator.Reset re-initialises every field Add writes, and in processWindowBatch Reset follows the Add loop on every path on which GetResults' error is nil, every in-module GetResults returning a constant nil error; (4) each of the aggregate names the property lists is registered with a type implementing AggregatorFunction. Also: no closure that outlives its iteration captures a variable a later iteration overwrites (module-wide, go.mod is below go 1.22); the NULL exemption of first_value/last_value is decided on the case-folded function name. Also: every group owns an instance of every aggregate before any accumulator is fed (an all-NULL group reports count 0 / NULL, not a missing column). Also: in GroupAggregator.Add the loop that feeds the group's aggregates is left only when every aggregate has seen the row, or by returning an error (flow/all-aggregates-fed): a break on one failing expression would hide the row from count(*) and every later aggregate.",
 		NotDecided: "every numeric definition (sum/avg/Welford variance/percentile interpolation/median), permutation invariance, coercion by cast.ToFloat64E, values of per-row expression arguments.",
 		Run:        runC03,
 	})
